@@ -1,5 +1,14 @@
 """C15 check configuration (see lib/runner.py for the meaning of the keys)."""
 
+ASSEMBLY_OVERLAY = {
+    "internal/zzverif/assembly/assembly.go": "assembly/assembly.go",
+    "internal/zzverif/assembly/handlers.go": "assembly/handlers.go",
+    "internal/handler/decision/zz_verif_export.go": "assembly/export/decision_export.go",
+    "internal/handler/proxy/zz_verif_export.go": "assembly/export/proxy_export.go",
+    "internal/handler/envoyextauth/grpcv3/zz_verif_export.go": "assembly/export/envoy_export.go",
+    "internal/zzverif/assembly/listeners.go": "assembly/listeners.go",
+}
+
 P = {
     "id": "C15",
     "claimed": True,
@@ -27,6 +36,12 @@ P = {
         "eval_module": "Run.Eval_C15", "check_term": "ucheck repaired",
         "n_quick": 1500, "n_thorough": 40000, "shard": 300,
         "findings": {},
+    }, {
+        "name": "e2e", "pkg": "./internal/zzverif/c15e2e", "test": "TestVerifC15E2E",
+        "overlay": dict(ASSEMBLY_OVERLAY, **{"internal/zzverif/c15e2e/c15_e2e_test.go": "c15/c15_e2e_test.go"}),
+        "eval_module": "Run.Eval_C15", "check_term": "check repaired",
+        "n_quick": 400, "n_thorough": 6000, "shard": 150,
+        "findings": {2: "C15-F2", 3: "C15-F3", 5: "C15-F5"},
     }],
     "rule": "requests written byte for byte over TCP (request target of 1-4 segments built from words, percent-escapes of reserved / "
             "unreserved / non-ASCII bytes in either hex case, reserved literals, bytes net/url re-encodes, broken escapes; queries with "
